@@ -163,6 +163,14 @@ def run(ctx):
     r8 = rep.rule('C02.8-single-instance', 'R-ORDER', 'qmail-send main: lock/sendmutex is locked (non-blocking, failure exits 111) before any queue work and never released')
     ms = qsend.analyse_main(db, rep)
     attach(r8, ms, only={'main:single-instance-lock-before-queue-work', 'main:mutex-never-released', 'main:queue-scanned-at-startup-before-the-loop'})
-    r8.expect_min(2)
+    from rules import libtab as _lt8
+    for inst_, v_ in sorted(_lt8.lock_sites(db, rep, db.program('qmail-send'), which=('lock_exnb',)).items()):
+        r8.check(v_[0], inst_, v_[1], v_[2], v_[3])
+    r8.expect_min(3)
+    r9 = rep.rule('C02.9-injector-signals', 'R-EFFECT', 'qmail-queue: no signal handler reaches the clean-up - a timer or signal arriving after link(intd,todo) must not remove intd/mess of a message that is already in todo (files disappear only in the documented order)')
+    from rules import C01 as _c01h
+    for inst_, v_ in sorted(_c01h.handler_sites(db).items()):
+        r9.check(v_[0], inst_, v_[1], v_[2], v_[3])
+    r9.expect_min(1)
     rep.assume('the step from these per-program premises to the global invariant is the argument of INTERNALS.md (not machine-checked)',
                'inode numbers are unique; stat/unlink/link act on the named file', 'fsync durability; synchronous directory operations')
